@@ -513,7 +513,9 @@ def run(ctx):
     ctx.extra['aarch64_instruction_coverage'] = a64cov
     # higher layers: the tower and group-law workloads on every executable back end must be byte-identical
     import importlib
-    hl = ['prod', 'x86base', 'p64', 'p32']
+    # ... including other code generations of the portable source: clang -O0 (every source-level load and store happens, in order: what
+    # latent undefined behaviour - a broken __restrict promise, a read of a dead temporary - needs in order to show) and g++ -O2
+    hl = ['prod', 'x86base', 'p64', 'p32', 'p64-O0', 'gcc-p64'] + ([] if ctx.quick else ['p32-O0', 'gcc-p64-O0'])
     hexes = session.build_exes({c: (c if c != 'x86base' else 'prod', 'opdrv.cpp', ['--x86base'] if c == 'x86base' else []) for c in hl})
     hl2 = ['prod', 'x86base', 'p64', 'p32']
     layers = [(m, 'opdrv.cpp', hl, hexes, [0, 5, 10]) for m in ('c04', 'c05', 'c06')] + [(m, 'opdrv.cpp', hl, hexes, [0, 9]) for m in ('c01', 'c07', 'c08', 'c09', 'c10')]
@@ -550,7 +552,7 @@ def run(ctx):
         for v in res['violations']:
             ctx.violation('higher-layer:%s' % v['key'].split(':', 1)[1], v['what'], v['replay'])
         ctx.event('higher-layer-differential:%s' % name.upper(), '/'.join(cfgl), n=max(1, res['lines']))
-    ctx.extra['configurations_executed'] = ['x86-64 BMI2/ADX asm (dispatch + direct)', 'x86-64 baseline asm (dispatch pointers swapped + direct)', 'portable C++ 64-bit words', 'portable C++ 32-bit words',
+    ctx.extra['configurations_executed'] = ['x86-64 BMI2/ADX asm (dispatch + direct)', 'x86-64 baseline asm (dispatch pointers swapped + direct)', 'portable C++ 64-bit words', 'portable C++ 32-bit words', 'portable C++ 64-bit words at clang -O0 and g++ -O2 (higher layers; thorough: 32-bit words -O0, g++ -O0)',
                                             'AArch64 asm under oracle/a64.py', 'ARMv6-M asm under the source-level interpreter oracle/thumb.py (macro expansion + Thumb-1 semantics, three readings of low-register MOV)']
     ctx.extra['configurations_not_executed'] = []
     ctx.extra['armv6m_caveat'] = 'the ARMv6-M files cannot be assembled here (pre-UAL syntax), so the source text is interpreted, not machine code; src/core/arch/armv6_m/fp.cpp (C++ glue for the final subtraction) is modelled by its one-line definition'
